@@ -1,2 +1,76 @@
--- line-protocol driver for C10 (stub; replaced when the property is built)
-def main : IO Unit := IO.println "stub"
+import Verif.Model.AcmeSM
+/-!
+  Line-protocol driver for C10 (ACME object state machine).
+
+  One history per line: `ops=<op>;<op>;…` (other fields, e.g. `case=`, are ignored). Ops:
+    n:<acct>:<now>:<k.k.…|->          new order, k = number of challenges of each identifier
+    r:<acct>:<chal>:<now>:<s|t|j|d>   respond to a challenge; validator verdict success / retry / reject / db error
+    a:<acct>:<authz>:<now>            get authorization
+    o:<acct>:<order>:<now>            get order
+    f:<acct>:<order>:<now>:<c><g><u>  finalize; CSR names match, signing succeeds, final UpdateOrder fails (0/1 each)
+    l:<acct>:<urlacct>:<now>          list the account's orders
+  Output: `T<total certificates>:<step>|<step>|…`, one step per op:
+    `<resp>/<order statuses>/<certificates per order>/<authz statuses>/<challenge statuses>`
+  statuses are letters p r v i in id order, certificate counts are joined by '.'.
+-/
+open Verif Verif.AcmeSM
+
+namespace C10
+
+def nat? (t : String) : Option Nat := t.toNat?
+def bit? (c : Char) : Option Bool := if c = '1' then some true else if c = '0' then some false else none
+
+def op? (t : String) : Option Op :=
+  match t.splitOn ":" with
+  | ["n", a, n, ks] => do
+    let ks ← if ks = "-" then some [] else (ks.splitOn ".").mapM nat?
+    pure (.newOrder (← nat? a) (← nat? n) ks)
+  | ["r", a, c, n, o] => do
+    let out ← match o with
+      | "s" => some Outcome.success | "t" => some .retry | "j" => some .reject | "d" => some .dbError
+      | _ => none
+    pure (.respond (← nat? a) (← nat? c) (← nat? n) out)
+  | ["a", a, z, n] => do pure (.getAuthz (← nat? a) (← nat? z) (← nat? n))
+  | ["o", a, o, n] => do pure (.getOrder (← nat? a) (← nat? o) (← nat? n))
+  | ["f", a, o, n, fl] =>
+    match fl.toList with
+    | [c, g, u] => do pure (.finalize (← nat? a) (← nat? o) (← nat? n) (← bit? c) (← bit? g) (← bit? u))
+    | _ => none
+  | ["l", a, u, n] => do pure (.listOrders (← nat? a) (← nat? u) (← nat? n))
+  | _ => none
+
+def stS : Status → String
+  | .pending => "p" | .ready => "r" | .valid => "v" | .invalid => "i"
+
+def dots (l : List Nat) : String := if l.isEmpty then "-" else ".".intercalate (l.map toString)
+
+def respS : Resp → String
+  | .ok st => "ok-" ++ stS st
+  | .created o => "created-" ++ toString o
+  | .list ids => "list-" ++ dots ids
+  | .unauthorized => "unauth"
+  | .notFound => "notfound"
+  | .notReady => "notready"
+  | .badCSR => "badcsr"
+  | .malformed => "malformed"
+  | .ise => "ise"
+
+def dump (s : Store) : String :=
+  let os := String.join (s.orders.map (stS ·.status))
+  let cs := dots ((List.range s.orders.length).map fun o => (s.certs.filter (·.order == o)).length)
+  let az := String.join (s.authzs.map (stS ·.status))
+  let ch := String.join (s.chals.map (stS ·.status))
+  s!"{os}/{cs}/{az}/{ch}"
+
+def eval (line : String) : Option String := do
+  let f ← (fields line).find? (·.startsWith "ops=")
+  let body := (f.drop 4).toString
+  let ops ← if body = "" then some [] else (body.splitOn ";").mapM op?
+  let (s, outs) := ops.foldl (fun (acc : Store × List String) op =>
+    let (s', r) := step acc.1 op
+    (s', (respS r ++ "/" ++ dump s') :: acc.2)) (({} : Store), [])
+  pure s!"T{s.certs.length}:{"|".intercalate outs.reverse}"
+
+end C10
+
+def main : IO Unit := Verif.lineLoop fun l => (C10.eval l).getD "parse-error"
